@@ -689,6 +689,15 @@ def hardening_streams(tier, rng):
             cases.append((605, [pc.rand_tm_args(rng, 1)[0], pc.rbytes(rng, tl), pc.rbytes(rng, n - tl)]))
             if n % 4 == 0:
                 cases.append((605, [pc.rand_tm_args(rng, 1)[0], pc.rbytes(rng, n - 9), pc.rbytes(rng, 9)]))
+    # round-number TOTAL packet lengths (block-wise processing slips show at exact multiples of a block size)
+    rounds = sorted({k * 10000 for k in range(1, 7)} | {1 << k for k in range(12, 17)} | {5000, 8192 * 3, 25000, 48000, 65535}
+                    | {rng.randrange(4200, 65542) for _ in range(3)})
+    for T in rounds:
+        for d in ((0,) if not big else (-1, 0, 1)):
+            tl = rng.choice([0, 7, 7, 16])
+            n = T + d - 15 - tl
+            if 0 <= n and tl + n <= 65527:
+                cases.append((605, [pc.rand_tm_args(rng, 1)[0], pc.rbytes(rng, tl), pc.rbytes(rng, n)]))
     pkt = _layout_fast(3, 25, 1, 1, 1, 0, 0, 0, pc.rbytes(rng, 7), pc.rbytes(rng, 20))
     cases.append((602, [pkt + pc.rbytes(rng, 70000), [7]])); cases.append((603, [pkt + pkt * 40, [7]]))
     for (tl, n) in ((7, 65521), (0, 65528), (65528, 0), (32768, 32760)):
